@@ -195,6 +195,43 @@ def r04_5(run, model, mir):
     run.floor("positive control: explicit panic sites recognised elsewhere in the compiler", ctrl, 50)
 
 
+PARTIAL_LEDGER = {
+    "hir::HirTable::": "assert_eq!(id.pkg, self.package): ids are minted by this table for its own package",
+    "tast::<impl common::Prim>::zero_for_int_ty": "called with a type for which is_integer_ty held (integer_literal_target / typed literal arms)",
+    "tast::<impl common::Prim>::from_float_literal": "called with TFloat32/TFloat64 only (float literal arms)",
+    "pipeline::pipeline::typecheck_with_packages_and_results": "package id lookup for a name taken from the same map's key set",
+}
+
+
+def r04_16(run, model, mir, front_extra=()):
+    run.rule("R04.16", "the lookup layer does not call partial helpers: a function outside typer/**, env.rs and names.rs that contains an explicit "
+                       "panic site may be called from there only if the ledger states why the panicking arm cannot be reached "
+                       "(`get_constr_name_unsafe` panics on every type without a constructor and is not in the ledger)")
+    g = Graph(mir)
+
+    def front(rel):
+        return rel.startswith("crates/compiler/src/typer/") or rel in ("crates/compiler/src/env.rs", "crates/compiler/src/names.rs") or rel in front_extra
+
+    pan = {}
+    for c in mir.calls:
+        if site_kind(c) == "panic":
+            pan.setdefault((c["crate"], base_fn(c["caller"])), c)
+    pairs = {}
+    for c in mir.calls:
+        if not front(c["file"]):
+            continue
+        t = g.resolve(c["crate"], c["callee"])
+        if t in pan and not front(pan[t]["file"]):
+            pairs.setdefault((base_fn(c["caller"]), t[1]), c)
+    for (caller, callee), c in sorted(pairs.items()):
+        led = next((r for k, r in PARTIAL_LEDGER.items() if callee == k or (k.endswith("::") and callee.startswith(k))), None)
+        run.ob("R04.16", f"{caller}|calls partial {callee}", led is not None, site(c["file"], [c["line"]]),
+               f"ledger: {led}" if led else f"{callee} contains an explicit panic and is not in the ledger",
+               witness="`fn f[T](x: T[int32]) -> string { x.foo() }`: the signature is reported, checking goes on and the accessor panics on TParam(T)")
+    run.floor("calls from the lookup layer into panicking helpers examined", len(pairs), 15)
+    run.floor("functions with an explicit panic site (control)", len(pan), 40)
+
+
 def r04_7(run, model, only_files=None):
     from lib import bounds as B
     run.rule("R04.7", "hand-written scanners never index past the end: every `bytes[E]` / `tokens[E]` in the lexer's multi-line string scanner, the "
@@ -339,6 +376,7 @@ def run(run, model):
     run.try_rule(r04_3, model)
     run.try_rule(r04_4, model, mir)
     run.try_rule(r04_5, model, mir)
+    run.try_rule(r04_16, model, mir)
     run.try_rule(r04_7, model)
     run.try_rule(r04_8, model)
     run.try_rule(r04_10, model, an)
